@@ -7,6 +7,7 @@
 -- fields: f64 f62 f128 (raw words) and q64 (quadratic extension of f64); elements are canonical integers
 -- (`a:b` for q64), lists are comma separated, rows are separated by ';', layers by '|'.
 import Winter.Drv.FriUtil
+import Winter.Gen.FriOpts
 
 namespace Drv.C15
 open Model Model.Fri Drv.Fri
@@ -84,7 +85,12 @@ def handle : List String → String
     match b.toNat?, fold.toNat?, r.toNat?, d.toNat? with
     | some b, some fold, some r, some d =>
       if h : fold = 2 ∨ fold = 4 ∨ fold = 8 ∨ fold = 16 then
-        toString (numFriLayers ⟨b, fold, r, h⟩ d)
+        -- the model, and the definition regenerated from fri/src/options.rs on this run (translation
+        -- validation of tie T: a difference between the two shows up as a disagreement with the code)
+        let m := toString (numFriLayers ⟨b, fold, r, h⟩ d)
+        let g := if Gen.FriOpts.num_fri_layers_ok 64 b fold r d then
+            toString (Gen.FriOpts.num_fri_layers 64 b fold r d) else "panic"
+        if m == g then m else s!"{m} gen={g}"
       else "panic"
     | _, _, _, _ => "bad-op"
   | ["prove", f, _hasher, n, r, logb, logn, alphas, coeffs, positions] =>
